@@ -26,12 +26,13 @@ class Target:
     """A conformant block/any-type target with a fault port and a command log."""
 
     def __init__(self, device_type=0x00, qualifier=0, blocksize=512, nblocks=1 << 41, vendor=b"VERIF   ",
-                 product=b"SIMULATED TARGET", revision=b"0001"):
+                 product=b"SIMULATED TARGET", revision=b"0001", inq_patch=None):
         self.device_type = device_type
         self.qualifier = qualifier
         self.blocksize = blocksize
         self.nblocks = nblocks
         self.vendor, self.product, self.revision = vendor, product, revision
+        self.inq_patch = dict(inq_patch or {})      # {byte index: value} applied to the standard INQUIRY data (bytes other than 0)
         self.disk = {}                 # lba -> bytes(blocksize)
         self.extents = []              # large WRITE SAME ranges: (seq, lba, n, block); resolved by sequence number against self.stamp
         self.stamp = {}                # lba -> seq of the last single-block write
@@ -51,6 +52,9 @@ class Target:
         d[8:16] = self.vendor
         d[16:32] = self.product
         d[32:36] = self.revision
+        for i, v in self.inq_patch.items():
+            if i != 0:
+                d[int(i)] = v
         return bytes(d)
 
     def zero(self):
